@@ -31,11 +31,14 @@ PENDING_CANDIDATES = {
     "node:details-dir-left-when-port-outlives-node":
         "the node's directory <root>/nodes/<node id>/ is left behind (empty) whenever the LAST object to go is a port or "
         "something that keeps a port's shared state alive (publisher, subscriber, sample, loan, notifier, listener, client, "
-        "server, request/response objects, writer, reader, entry handles) instead of the Node or the service handle: the port "
-        "shared state declares `port_tag` AFTER the field that holds the last SharedNode (sender / receiver / service_state), so "
-        "SharedNodeState::drop -> remove_node runs while the port tag file still exists; remove_node only removes the *.details "
-        "storage, rmdir fails with ENOTEMPTY (only a warn!), and the port tag is removed afterwards. ipc variants; minimal order: "
-        "drop node, svc, then the port last (e.g. event, slots node,svc,listener,notifier: 0,1,3,2)",
+        "server, request/response objects, writer, reader, entry handles) instead of the Node or the service handle: every port "
+        "(shared) state declares `port_tag` as its LAST field (on purpose: crash-cleanup marker, see the comment in "
+        "port/subscriber.rs), i.e. after the field that holds the last SharedNode (sender / receiver / service_state), so "
+        "SharedNodeState::drop -> remove_node runs while the port tag file still exists: remove_node lists only the *.details "
+        "storages of the directory, Directory::remove_empty then fails (not empty -> NodeCleanupFailure::InternalError, reported "
+        "only by warn!), and the port tag is removed afterwards, leaving the empty directory for ever (Node::list ignores it; "
+        "names stay reusable). ipc variants only (local has no directories). Typical trigger: `struct App { node, service, port }` "
+        "(fields drop in declaration order, node first). Minimal order: event, 1 node, slots node,svc,notifier,listener = 0,1,2,3",
 }
 
 
